@@ -181,11 +181,23 @@ class Gen:
     def program(self):
         rs = self.rs
         body = self.block(0, False, False, False, min_len=2)
+        if self.allow_subs and rs.below(3) == 0:
+            # an awaited sub-coroutine whose loop can be left in the same state in two ways (its condition, a break / return),
+            # with statements following the call
+            name = f"sub{len(self.subs)}"
+            inner = [self.simple(), ["if", self.cond(), [["break"] if rs.below(2) else ["return"]], None]]
+            if rs.below(2):
+                inner.append(["tick"] if rs.below(2) else ["await", self.bitcond()])
+            if rs.below(3) == 0:
+                inner.insert(0, ["await", self.bitcond()])
+            self.subs.append({"name": name, "body": [["while", self.cond(), inner]] + ([self.simple()] if rs.below(2) else [])})
+            pos = rs.range(0, len(body))
+            body[pos:pos] = [["call", name], self.mark(), self.simple()]
         if self.allow_halt and rs.below(12) == 0:
             body.append(["halt"])
         reset = None
         if self.reset_kind is not None:
-            reset = {"kind": self.reset_kind, "on_reset": self.on_reset, "extra_ports": "nd" in self.targets}
+            reset = {"kind": self.reset_kind, "on_reset": self.on_reset, "extra_ports": "nd" in self.targets, "records": "rx" in self.targets}
         return {
             "edge": "falling" if rs.below(6) == 0 else "rising",
             "step_cond": rs.below(4) == 0,
@@ -263,21 +275,28 @@ def r_await(c):
     return f"await cohdl.expr({r_cond(c)})"
 
 
+TARGET_EXPR = {"rx": "rres.x", "nx": "rno.x"}  # members of record signals (std.Signal[Rec] / std.NoresetSignal[Rec])
+
+
+def r_target(t):
+    return TARGET_EXPR.get(t, f"self.{t}")
+
+
 def r_block(stmts, ind, out):
     pad = "    " * ind
     for s in stmts:
         k = s[0]
         if k == "sig":
             e = s[2]
-            out.append(f"{pad}self.{s[1]} <<= {r_expr(e)}")
+            out.append(f"{pad}{r_target(s[1])} <<= {r_expr(e)}")
         elif k == "comment":
             out.append(f"{pad}std.comment({s[1]!r})")
         elif k == "sigs":
             _, t, hi, lo, e = s
             if hi == lo:
-                out.append(f"{pad}self.{t}[{hi}] <<= ({r_expr(e)})[0]")
+                out.append(f"{pad}{r_target(t)}[{hi}] <<= ({r_expr(e)})[0]")
             else:
-                out.append(f"{pad}self.{t}[{hi}:{lo}] <<= ({r_expr(e)})[{hi - lo}:0]")
+                out.append(f"{pad}{r_target(t)}[{hi}:{lo}] <<= ({r_expr(e)})[{hi - lo}:0]")
         elif k == "var":
             out.append(f"{pad}{s[1]} @= {r_expr(s[2])}")
         elif k == "push":
@@ -344,6 +363,8 @@ def render(prog, attrs=None):
         # a sub-entity whose inout port is connected to one of the targets (it never drives it): the connection must not
         # change the target's default / reset behaviour
         L += ["class Tap(cohdl.Entity):", f"    p = Port.inout(Unsigned[{W}])", "    def architecture(self):", "        pass", ""]
+    if (prog.get("reset") or {}).get("records"):
+        L += ["class Rec(std.Record):", f"    x: Unsigned[{W}]", "    f: Bit", ""]
     L += [
         "class E(cohdl.Entity):",
         "    clk = Port.input(Bit)",
@@ -369,6 +390,8 @@ def render(prog, attrs=None):
         L += [f"    nd = Port.output(Unsigned[{W}])", f"    nr = Port.output(Unsigned[{W}], default=3, noreset=True)"]
     if rst.get("on_reset"):
         L += [f"    orr = Port.output(Unsigned[{W}], default=0)"]
+    if rst.get("records"):
+        L += [f"    rx = Port.output(Unsigned[{W}])", f"    nx = Port.output(Unsigned[{W}])"]
     L += [
         "",
         "    def architecture(self):",
@@ -376,6 +399,9 @@ def render(prog, attrs=None):
     ]
     if prog.get("tap"):
         L.append(f"        Tap(p=self.{prog['tap']})")
+    if rst.get("records"):
+        # compound objects: a record that is reset and one created with the noreset wrapper; the outputs show member x
+        L += ["        rres = std.Signal[Rec](x=6, f=True)", "        rno = std.NoresetSignal[Rec](x=9, f=False)", "        std.concurrent_assign(self.rx, rres.x)", "        std.concurrent_assign(self.nx, rno.x)"]
     for v, init in prog["vars"].items():
         L.append(f"        {v} = Variable[Unsigned[{W}]]({init})")
     for sub in prog["subs"]:
